@@ -102,13 +102,13 @@ func init() {
 	register(&Property{
 		ID:          "C03",
 		Run:         func(c *Ctx) { runJoinProperty(c, "C03") },
-		Explanation: "Join/unite integrity as an invariant preserved by every operation: J1 every value received with ok=true is handed to the accept function exactly once and nothing is handed over after close; J2 the accept function ingests the whole value exactly once (unite: or forwards the whole slice), never both, never a part; J3 every payload is the whole buffer or a whole input slice; J4 buffer typestate over the goroutine: send(B) is followed by reset before any ingest or second send and no reset happens without a send (v1: except after a stop clause); J5 the buffer is sent only when non-empty, a slice is forwarded alone only when len >= JoinSize, the constructor rejects JoinSize 0; J6 after an ingest the function flushes or leaves under len(B) < JoinSize (length read after the ingest); J7 unite fit facts: ingest only under len(item)+len(B) <= JoinSize or after a flush with len(item) < JoinSize, forward only big slices right after a flush; J8 the loop functions defer the flush first and the entry's defer closes the output afterwards.",
+		Explanation: "Join/unite integrity as an invariant preserved by every operation, decided as typestate automata over the events of the goroutine (input receive, append to the buffer, output send, truncation, release wait, stop clause) with every product callee inlined - which function a statement sits in is irrelevant: J1 every value received with ok=true is appended to the buffer or forwarded exactly once before the next receive, and nothing is taken after close; J2 an ingest appends the whole received value, a forward sends the whole slice; J3 every payload is the whole buffer or a whole input slice; J4 buffer typestate over the goroutine: send(B) is followed by reset before any ingest or second send and no reset happens without a send (v1: except after a stop clause); J5 the buffer is sent only under a valid len(B) != 0 fact, a slice is forwarded alone only under len >= JoinSize, the constructor rejects JoinSize 0; J6 after an ingest, before the next receive, the buffer is sent or a fresh len(B) < JoinSize holds; J7 unite fit facts: ingest only under len(item)+len(B) <= JoinSize or into the emptied buffer with len(item) < JoinSize, forward only big slices right after the buffer was emptied; J8 no path leaves a loop function with elements in the buffer (the final flush, deferred or explicit), and the entry's defer closes the output afterwards. Size facts are taken from comparison edges (conditions hidden in expression functions are expanded) and an edge contradicting the known facts is infeasible.",
 		NotDecided:  []string{"timing is irrelevant to this property by construction"},
 	})
 	register(&Property{
 		ID:          "C11",
 		Run:         func(c *Ctx) { runJoinProperty(c, "C11") },
-		Explanation: "Unite never splits an input slice: J2 (whole-slice ingest or whole forward, exactly one of them), J3 (payloads are whole), J4 (nothing is ingested between send and reset), J5 (no empty output; forward only for len >= JoinSize), J7 (flush before an ingest that would not fit; oversize slices are forwarded alone right after a flush). Empty input slices: append(B, empty...) is a no-op and J5 prevents an empty send.",
+		Explanation: "Unite never splits an input slice: J1 (every received slice is ingested whole or forwarded whole, exactly once; end of input only by the closed flag), J2 (ingests and forwards are whole), J3 (payloads are whole), J4 (nothing is ingested between send and reset), J5 (no empty output; forward only for len >= JoinSize), J7 (the buffer is emptied before an ingest that would not fit; oversize slices are forwarded alone right after the buffer was emptied). Empty input slices: append(B, empty...) is a no-op and J5 prevents an empty send. All rules are typestate automata over events with callees inlined (see C03).",
 		NotDecided:  []string{},
 	})
 }
